@@ -1,5 +1,5 @@
 (* props/C05.v -- C05: a failed or interrupted write never leaves a wrong graph that looks valid. *)
-From Geff Require Import Base Dtype Vlen Tree Validate Write WriteLemmas CrashLemmas.
+From Geff Require Import Base Dtype Vlen Tree Validate Write WriteLemmas CrashLemmas OverwriteLemmas.
 From Geff.Gen Require Import Consts.
 Open Scope string_scope.
 Open Scope list_scope.
@@ -28,6 +28,23 @@ Theorem C05_crash_overwrite : forall k pre g md v,
   new_ok k r (s_trace s') /\ (r <> Ok tt -> s_trace s' <> [] -> unrecognised k (s_root s')).
 Proof. exact crash_overwrite. Qed.
 Print Assumptions C05_crash_overwrite.
+
+(* (a2), (b2) the same two statements for the graph-library writers (geff.write / write_nx / write_rx / write_sg: model api_write,
+        the wrapper's guard followed by write_arrays' guard), including the case in which the inner guard refuses after the old geff
+        has been deleted (a directory holding the geff beside foreign members, C06_api_overwrite_beside): that end state is
+        unrecognised, never a wrong graph *)
+Theorem C05_crash_api_fresh : forall k pre g md v ov,
+  clean k pre ->
+  let (s', r) := api_write k g md v ov (init pre) in
+  new_ok k r (s_trace s') /\ (r <> Ok tt -> unrecognised k (s_root s')).
+Proof. exact crash_api_clean. Qed.
+Print Assumptions C05_crash_api_fresh.
+
+Theorem C05_crash_api_overwrite : forall k pre g md v,
+  let (s', r) := api_write k g md v true (init pre) in
+  new_ok k r (s_trace s') /\ (r <> Ok tt -> s_trace s' <> [] -> unrecognised k (s_root s')).
+Proof. exact crash_api_overwrite. Qed.
+Print Assumptions C05_crash_api_overwrite.
 
 (* the two facts behind (a) and (b): a root without the geff attribute, or without a nodes group, is never accepted *)
 Theorem C05_commit_point : forall k st, alookup "geff" (oattrs st) = None -> unrecognised k st.
